@@ -168,3 +168,150 @@ def runFitCG (kind : String) (xs : Array α) (a : α) : Option (FitRes α) :=
   | _ => none
 
 end EaselModel.Stats
+
+namespace EaselModel.Stats
+open Num
+variable {α : Type} [Num α]
+
+/-! ## gamma (generalized Newton, `esl_gamma.c`) -/
+
+/-- `esl_stats_LogGamma()` with its status: `none` = eslERANGE (`x ≤ 0`) -/
+def logGammaSt (x : α) : Option α := if leb x zero then none else some (logGamma x)
+
+/-- the `while (x < 8.5) { psi -= 1./x; x += 1.; }` loop (at most 9 rounds for `x > 1e-5`) -/
+def psiLoop : Nat → α → α → α × α
+  | 0, psi, x => (psi, x)
+  | k+1, psi, x => if ltb x (8.5 : α) then psiLoop k (psi - one / x) (x + one) else (psi, x)
+
+/-- `esl_stats_Psi()`; `none` = eslERANGE -/
+def psiSt (x : α) : Option α :=
+  if leb x zero then none else
+  if leb x (1e-5 : α) then some (-(0.57721566490153286060651209008 : α) - one / x) else
+  let (psi, x) := psiLoop 16 zero x
+  let x2 := one / x
+  let psi := psi + (log x - (0.5 : α) * x2)
+  let x2 := x2 * x2
+  some (psi + (((-1.0 : α) / (12.0 : α)) * x2 + ((1.0 : α) / (120.0 : α)) * x2 * x2 - ((1.0 : α) / (252.0 : α)) * x2 * x2 * x2))
+
+/-- `while (x < 5.0) { trigam += 1./(x*x); x += 1.; }` -/
+def trigammaLoop : Nat → α → α → α × α
+  | 0, t, x => (t, x)
+  | k+1, t, x => if ltb x (5.0 : α) then trigammaLoop k (t + one / (x * x)) (x + one) else (t, x)
+
+/-- `esl_stats_Trigamma()`; `none` = eslERANGE -/
+def trigammaSt (x : α) : Option α :=
+  if leb x zero then none else
+  if leb x (1.0e-4 : α) then some (one / (x * x)) else
+  let (t, x) := trigammaLoop 16 zero x
+  let y := one / (x * x)
+  some (t + ((0.5 : α) * y + (one + y * ((1.0 : α) / (6.0 : α) + y * ((1.0 : α) / (30.0 : α) + y * ((1.0 : α) / (42.0 : α) + y * ((1.0 : α) / (30.0 : α)))))) / x))
+
+/-- `gam_nll()`; `none` = eslERANGE -/
+def gamNll (xbar logxbar tau : α) : Option α :=
+  match logGammaSt tau with
+  | none => none
+  | some lg => some (-(tau * log tau - tau * log xbar - lg + (tau - one) * logxbar - tau))
+
+/-- the `do … while` of `gam_fitting_engine()`; `k` = fuel (= max_iterations), returns `(status, tau, old_tau, fx, old_fx, iter)` -/
+def gamLoop (xbar logxbar : α) : Nat → Nat → α → α → St × α × α × α × α × Nat
+  | 0, iter, tau, fx => (.enohalt, tau, tau, fx, fx, iter)       -- unreachable (the loop condition tests iter < 100 first)
+  | k+1, iter, tau, fx =>
+    match psiSt tau, trigammaSt tau with
+    | some psi, some tg =>
+      let tau' := one / (one / tau + (logxbar - log xbar + log tau - psi) / (tau - tau * tau * tg))
+      match gamNll xbar logxbar tau' with
+      | none => (.erange, tau', tau, fx, fx, iter)
+      | some fx' =>
+        let iter := iter + 1
+        if iter < 100 && (!(dcompare tau tau' (1e-6 : α) (1e-6 : α)) || !(dcompare fx fx' (1e-6 : α) (1e-6 : α))) then
+          gamLoop xbar logxbar k iter tau' fx'
+        else if iter == 100 then (.enohalt, tau', tau, fx', fx, iter)
+        else (.ok, tau', tau, fx', fx, iter)
+    | _, _ => (.erange, tau, tau, fx, fx, iter)
+
+/-- `gam_fitting_engine()` → `(lambda, tau)` -/
+def gamFittingEngine (xbar logxbar : α) : FitRes α :=
+  let tau0 := (0.5 : α) / (log xbar - logxbar)
+  match gamLoop xbar logxbar 100 0 tau0 (one / zero) with
+  | (.ok, tau, _, _, _, _) => .res .ok #[tau / xbar, tau]
+  | (st, _, _, _, _, _) => .res st #[-(one / zero), -(one / zero)]
+
+/-- `esl_gam_FitComplete(x, n, mu)` -/
+def gamFitComplete (xs : Array α) (mu : α) : FitRes α :=
+  if xs.any (fun x => ltb (x - mu) zero) then .res .einval #[-(one / zero), -(one / zero)] else
+  let xbar := sumMap (fun x => x - mu) xs / ofInt xs.size
+  let logxbar := sumMap (fun x => if eqb (x - mu) zero then (-36.0 : α) else log (x - mu)) xs / ofInt xs.size
+  gamFittingEngine xbar logxbar
+
+/-- `esl_gam_FitCountHistogram(ct, n, mu)` with `ct = ct[0..n]` -/
+def gamFitCountHistogram (ct : Array α) (mu : α) : FitRes α :=
+  let bad : FitRes α := .res .einval #[-(one / zero), -(one / zero)]
+  if !(eqb (ceil mu) mu) then bad else
+  let mui := toInt mu                                    -- `lround(mu)` of an integral value
+  if (List.range ct.size).any (fun (i : Nat) => decide (((i : Nat) : Int) ≤ mui) && !(eqb (ct.getD i zero) zero)) then bad else
+  let idx := (List.range ct.size).filter (fun (i : Nat) => decide (((i : Nat) : Int) > mui))
+  if idx.any (fun i => !(gtb (ct.getD i zero) zero) && ltb (ct.getD i zero) zero) then bad else
+  let (xbar, logxbar, ntot) := idx.foldl (fun (a : α × α × α) i =>
+      let c := ct.getD i zero
+      if gtb c zero then
+        let v := ofInt i - mu
+        (a.1 + c * v, a.2.1 + c * log v, a.2.2 + c)
+      else a) (zero, zero, zero)
+  if leb ntot zero then bad else
+  gamFittingEngine (xbar / ntot) (logxbar / ntot)
+
+end EaselModel.Stats
+
+namespace EaselModel.Stats
+open Num
+variable {α : Type} [Num α]
+
+/-! ## Weibull, binned (`esl_wei_FitCompleteBinned`) -/
+
+/-- `esl_wei_cdf()` -/
+def weiCdf (x mu lambda tau : α) : α :=
+  let y := lambda * (x - mu)
+  let tly := tau * log y
+  if leb x mu then zero
+  else if ltb (exp tly) smallX1 then exp tly
+  else one - exp (-(exp tly))
+
+/-- bins `cmin..imax` as `(index, count)`; `none` = an index outside `obs[0..nb-1]` (memory fault) -/
+def binRange (h : Hist α) : Option (List (Int × Nat)) :=
+  let k := (h.imax - h.cmin + 1).toNat
+  if k = 0 then some [] else
+  if 0 ≤ h.cmin ∧ (h.imax.toNat < h.obs.size) ∧ 0 ≤ h.imax then
+    some ((List.range k).map (fun (j : Nat) => (h.cmin + (j : Int), h.obs.getD (h.cmin + (j : Int)).toNat 0)))
+  else none
+
+/-- `wei_binned_func()` -/
+def weiBinnedFunc (h : Hist α) (bins : List (Int × Nat)) (mu : α) (p : Array α) : α :=
+  let lambda := exp (p.getD 0 zero)
+  let tau := exp (p.getD 1 zero)
+  let r := bins.foldl (fun (acc : Option α) (ic : Int × Nat) =>
+    match acc with
+    | none => none
+    | some logL =>
+      if ic.2 == 0 then some logL else
+      let ai := h.lbound ic.1
+      let bi := h.ubound ic.1
+      let ai := if ltb ai mu then mu else ai
+      let tmp := weiCdf bi mu lambda tau - weiCdf ai mu lambda tau
+      if leb tmp zero then none else some (logL + ofInt ic.2 * log tmp)) (some zero)
+  match r with
+  | none => one / zero
+  | some logL => Neg.neg logL
+
+/-- `esl_wei_FitCompleteBinned()` (`is_tailfit` is only set by `SetExpectedTail`, not modelled: false) → `(mu, lambda, tau)` -/
+def weiFitCompleteBinned (h : Hist α) : FitRes α :=
+  match binRange h with
+  | none => .fault
+  | some bins =>
+    let mu := if h.isRounded then h.lbound h.imin else h.xmin
+    let mean := bins.foldl (fun (acc : α) ic => acc + ofInt ic.2 * (h.lbound ic.1 + (0.5 : α) * h.w)) zero
+    let mean := mean / ofInt h.no
+    let lambda := one / (mean - mu)
+    let tau : α := (0.9 : α)
+    fit2Result mu (cgd (MinCfg.null : MinCfg α) (weiBinnedFunc h bins mu) none #[log lambda, log tau])
+
+end EaselModel.Stats
